@@ -170,7 +170,8 @@ func (s *c02State) judgeAccept(hd *wire.BlockHeader, height int, reqA, reqB uint
 			return
 		}
 	}
-	if height >= daaActivation && hd.Bits != reqA && hd.Bits != reqB {
+	_ = reqB
+	if height >= daaActivation && hd.Bits != reqA {
 		s.run.Violate(common.Violation{Clause: "bits-equal-daa-from-activation", Signature: "wrong-bits-accepted/" + where,
 			Detail: fmt.Sprintf("header at height %d accepted with bits 0x%08x, algorithm requires 0x%08x", height, hd.Bits, reqA), Witness: w})
 	}
@@ -312,7 +313,7 @@ func (s *c02State) realChain(ctx context.Context, fx *Fixture, name string, mutE
 			if height >= daaActivation {
 				s.run.Eval(1)
 				s.count("reference-daa-evaluated-on-real-headers")
-				if real.Bits != reqA && real.Bits != reqB {
+				if real.Bits != reqA {
 					s.run.Inconclusive(fmt.Sprintf("reference-daa-disagrees-with-mainnet at %d: ref 0x%08x real 0x%08x", height, reqA, real.Bits))
 				} else if reqA != reqB {
 					s.count("real-header-on-inversion-rounding-boundary")
@@ -452,16 +453,14 @@ func (s *c02State) daaDifferential(ctx context.Context, nChains int) {
 				}
 				got := bitcoin.ConvertToBits(tgt, bitcoin.MaxBits)
 				s.count("daa/" + regime + "/evaluated")
-				if got != reqA && got != reqB {
+				if got != reqA {
 					s.run.Violate(common.Violation{Clause: "bits-equal-daa-on-own-branch", Signature: "daa-differs/" + daaCause(get, h),
 						Detail: fmt.Sprintf("regime %s height %d (child branch: %v): repository requires 0x%08x, reference 0x%08x", regime, h, onChild, got, reqA), Witness: w})
 					return
 				}
 				if reqA != reqB {
 					s.count("daa/inversion-rounding-boundary-hit")
-					if got == reqB {
-						s.count("daa/inversion-rounding-boundary-repo-uses-floor(2^256/(W+1))")
-					}
+					_ = reqB
 				}
 				if rng.Intn(3) > 0 {
 					bits = reqA
@@ -509,6 +508,9 @@ func lastBits(tab []TW, h int) string { return fmt.Sprintf("%d headers", h) }
 
 // daaCause attributes a disagreement to the separable causes named in the property.
 func daaCause(get func(h int) TW, h int) string {
+	if a, b := RefDAA(get, h); a != b {
+		return "inversion-rounding"
+	}
 	last := suitable(get, h-1)
 	first := suitable(get, h-145)
 	ts := int64(last.T) - int64(first.T)
@@ -545,7 +547,7 @@ func RunC02(tier string, seed int64) int {
 	run.Rule = "three monitors: (1) every exponent byte x mantissa classes x {child of genesis, child of a real-chain tip above the DAA activation, orphan} through ProcessHeader with difficulty enabled, nonce ground where the target allows; (2) Branch.Target vs a reference cw-144 implementation on synthetic chains (regular, ties in all weak orderings, decreasing, far-future, random walk; root and child branches); (3) both real-chain fixtures replayed with difficulty enabled plus single-field mutants of real headers. distinct = distinct (exponent,class,placement) / (fixture,height,mutation) / chain descriptors"
 	run.Assumptions = []string{
 		"reference DAA transcribed from the node implementation (median-of-3 swap network, signed clamped timespan, W*600/ts, (2^256-W)/W); it is validated against the real headers in the fixtures on every run",
-		"the work->target inversion is set-valued: (2^256-W)/W and floor(2^256/(W+1)) are both admitted because the transcription of that step could not be re-checked offline (DESIGN.md C02 iii)",
+		"the work->target inversion is (2^256-W)/W as in the node implementation; it is the only one of the two candidate formulas under which a chain with steady difficulty and exact spacing keeps its bits (fixed point), and both real-chain fixtures agree with it (DESIGN.md C02 iii)",
 		"acceptance of an overflowing compact encoding below the activation height is recorded as observed behaviour, not a violation",
 		"panics caught by recover() at the ProcessHeader boundary are process death in production (bare handler goroutine)"}
 	s := &c02State{run: run, obs: map[string]int64{}}
